@@ -389,6 +389,10 @@ func (d *Decoder) VerifyAllData() (ok bool, err error) {
 // error is returned. If checkParity is true, extra checking is done
 // of the reconstructed parity data.
 func (d *Decoder) Repair(checkParity bool) ([]string, error) {
+	if fc := d.FileCounts(); !fc.RepairPossible() {
+		return nil, reedsolomon.ErrTooFewShards
+	}
+
 	rs, err := d.newReedSolomon()
 	if err != nil {
 		return nil, err
